@@ -1,4 +1,6 @@
+mod alloc;
 mod checks;
+mod streams;
 mod codec;
 mod common;
 mod gen;
@@ -13,7 +15,87 @@ mod tamper;
 mod faults;
 
 use runner::*;
+
+#[global_allocator]
+static GLOBAL: alloc::CountingAlloc = alloc::CountingAlloc;
 use std::time::Instant;
+
+/// Run the check in a child process under an address-space limit.  An
+/// abnormal death (abort on allocation failure, stack overflow, signal) is
+/// attributed to the cases recorded in the intent log.
+fn isolate(prop: &'static str, tier: Tier, seed: u64, verif_dir: &str) -> i32 {
+    use std::os::unix::process::CommandExt;
+    use std::os::unix::process::ExitStatusExt;
+    let exe = std::env::current_exe().expect("current_exe");
+    let dir = format!("{}/sim/target/intent-{}-{}", verif_dir, prop, std::process::id());
+    let _ = std::fs::remove_dir_all(&dir);
+    if std::fs::create_dir_all(&dir).is_err() {
+        eprintln!("HARNESS ERROR: cannot create intent dir {}", dir);
+        return 2;
+    }
+    let mut cmd = std::process::Command::new(exe);
+    cmd.arg(prop)
+        .arg(tier.name())
+        .env("BPSIM_CHILD", "1")
+        .env("BPSIM_INTENT_DIR", &dir)
+        .env("VERIF_SEED", seed.to_string())
+        .env("VERIF_DIR", verif_dir);
+    unsafe {
+        cmd.pre_exec(|| {
+            let lim = libc::rlimit {
+                rlim_cur: 24u64 << 30,
+                rlim_max: 24u64 << 30,
+            };
+            libc::setrlimit(libc::RLIMIT_AS, &lim);
+            Ok(())
+        });
+    }
+    let status = match cmd.status() {
+        Ok(s) => s,
+        Err(e) => {
+            eprintln!("HARNESS ERROR: cannot spawn child: {}", e);
+            return 2;
+        }
+    };
+    let code = if let Some(c) = status.code() {
+        if c == 0 || c == 1 || c == 2 {
+            c
+        } else {
+            -1
+        }
+    } else {
+        -1
+    };
+    if code >= 0 {
+        let _ = std::fs::remove_dir_all(&dir);
+        return code;
+    }
+    // abnormal exit: every in-flight case is a candidate
+    let rdir = format!("{}/replays/{}", verif_dir, prop);
+    let _ = std::fs::create_dir_all(&rdir);
+    let mut n = 0;
+    if let Ok(rd) = std::fs::read_dir(&dir) {
+        for (i, f) in rd.flatten().enumerate() {
+            if let Ok(s) = std::fs::read_to_string(f.path()) {
+                if let Ok(case) = serde_json::from_str::<serde_json::Value>(&s) {
+                    let path = format!("{}/{}-abort-{}.json", rdir, seed, i);
+                    let body = serde_json::json!({"property": prop, "seed": seed, "run": 0, "tier": tier.name(),
+                        "oracle": "process-survival", "signature": "process-abort",
+                        "detail": format!("child process died abnormally ({:?}, signal {:?}) while this case was in flight", status.code(), status.signal()),
+                        "case": case});
+                    let _ = std::fs::write(&path, serde_json::to_string_pretty(&body).unwrap());
+                    println!("VIOLATION property={} replay={}", prop, path);
+                    n += 1;
+                }
+            }
+        }
+    }
+    if n == 0 {
+        eprintln!("HARNESS ERROR: child died abnormally ({:?}) and left no intent log", status);
+        return 2;
+    }
+    1
+}
 
 fn usage() -> ! {
     eprintln!("usage: bpsim <C01..C18> [quick|thorough] | bpsim replay <file> | bpsim selftest <what>");
@@ -85,6 +167,12 @@ fn main() {
                     ok = false;
                 }
             }
+            if what == "all" || what == "isolation" {
+                if let Err(e) = selftest::isolation(&verif_dir) {
+                    eprintln!("SELFTEST FAILED: {}", e);
+                    ok = false;
+                }
+            }
             if what == "all" || what == "determinism" {
                 if let Err(e) = selftest::determinism(&verif_dir, checks::ALL) {
                     eprintln!("SELFTEST FAILED: {}", e);
@@ -99,6 +187,9 @@ fn main() {
                 _ => Tier::Quick,
             };
             let prop: &'static str = Box::leak(p.to_string().into_boxed_str());
+            if checks::ISOLATED.contains(&prop) && std::env::var("BPSIM_CHILD").is_err() {
+                std::process::exit(isolate(prop, tier, seed, &verif_dir));
+            }
             let ctx = Ctx {
                 prop,
                 tier,
